@@ -112,6 +112,17 @@ def run(ctx):
             node=fo.node, function=ctx.fq(fo), expected="[convert(p) for p in obj.replace('-', '.').split('.')]",
             found=f"{[repr(o.value)[:200] for o in fouts]}")
 
+    # ---- D1d: the pre-release label sits at a position that does not depend on the number of numeric fields
+    R.rule("C20-D1d label position", 1, "the numeric core has a fixed number of fields when a pre-release label follows")
+    all_outs = Evaluator(repo, inline_depth=0).outcomes(fo)
+    normalised = any(isinstance(s, App) and s.op == "len" for o in all_outs for t in (list(o.conds) + [o.value] + list(all_effects(o.effects)))
+                     if t is not None for s in subterms(t))
+    R.check("C20-D1d label position", normalised, "field count normalised before the label", mod=m, node=fo.node, function=ctx.fq(fo),
+            expected="with a label present the numeric core is padded / restricted to one field count, so that the label of every version "
+                     "is compared with the label (not with a numeric field) of every other version",
+            found="the list is the plain split of the string: the label's index equals the number of numeric fields, e.g. "
+                  "'1.0-rc.1' -> [1, 0, -1, 1] sorts below '1.0.0-alpha' -> [1, 0, 0, -3] although rc.1 follows alpha")
+
     seqnum_rules(ctx, en, members)
 
 
@@ -134,6 +145,27 @@ def _field_shift(t):
     if isinstance(t, App) and t.op == "call:int" and isinstance(t.args[0], App) and t.args[0].op == "idx" \
             and isinstance(t.args[0].args[1], Const):
         return t.args[0].args[1].v, sh
+    return None
+
+
+def _refute_monotone(val, order):
+    """Evaluate the stored sequence-number term on ordered version tuples; returns (t1, t2, v1, v2) with t1 < t2 and v1 >= v2."""
+    from sa.teval import Raised, Unknown, teval
+    ver = App("idx", (Sym("param:cfg"), Const("VERSION")))
+    majors = [0, 1, 2, 127, 128, 255, 256, 300, 32767, 32768, 65535, 65536]
+    smalls = [0, 1, 254, 255]
+    tuples = sorted({(a, b, c, d) for a in majors for b in smalls for c in smalls for d in smalls})
+    prev = None
+    for t in tuples:
+        env = {ver: {k: str(v) for k, v in zip(order, t)}}
+        try:
+            v = teval(val, env)
+            v = int(v) if isinstance(v, str) else v
+        except (Unknown, Raised, ValueError, TypeError):
+            return None
+        if prev is not None and not (prev[1] < v):
+            return prev[0], t, prev[1], v
+        prev = (t, v)
     return None
 
 
@@ -166,7 +198,15 @@ def seqnum_rules(ctx, en, members):
             if all(f is not None for f in fs) and len(fs) >= 3:
                 polys.append(dict(fs))
         if not polys:
-            raise AnalysisError(f"{fq}: {key} polynomial not recognised in {val!r}"[:300])
+            # not the recognised normal form: look for a concrete counterexample by evaluating the stored term on ordered tuples
+            # (sound as a refutation; without one the analysis cannot stand behind a verdict)
+            wit = _refute_monotone(val, order)
+            if wit is None:
+                raise AnalysisError(f"{fq}: {key} polynomial not recognised in {val!r}"[:300])
+            R.fail("C20-D2 sequence polynomial", f"{key}: not strictly increasing", mod=fi.module, node=stores[key][0].node, function=fq,
+                   expected="(major<<24)+(minor<<16)+(patch<<8)[+tweak], strictly increasing in (major, minor, patch, tweak)",
+                   found=f"{wit[0]} -> {wit[2]} but {wit[1]} -> {wit[3]}", key_extra=key)
+            continue
         for poly in polys:
             inst = f"{key}: {sorted(poly.items(), key=lambda x: -x[1])}"
             fields = [f for f in order if f in poly]
@@ -215,16 +255,42 @@ def seqnum_rules(ctx, en, members):
                 found=f"literal labels {sorted(lits)}; shape ok={shapes_ok}", key_extra=key)
 
 
+def regex_first_group_literals_cs(sub):
+    items = list(sub)
+    if len(items) == 1 and str(items[0][0]) == "BRANCH":
+        alts = []
+        for alt in items[0][1][1]:
+            s = ""
+            for o2, a2 in alt:
+                if str(o2) != "LITERAL":
+                    return None
+                s += chr(a2)
+            alts.append(s)
+        return alts
+    s = ""
+    for o2, a2 in items:
+        if str(o2) != "LITERAL":
+            return None
+        s += chr(a2)
+    return [s]
+
+
 def regex_first_group_literals(pat):
     """Literal alternatives of the first capturing group of ``pat`` (parser only, no matching)."""
     try:
         import re._parser as sp
     except ImportError:  # pragma: no cover
         import sre_parse as sp
+    import re as _re
     tree = sp.parse(pat)
+    global_ci = bool(tree.state.flags & _re.IGNORECASE)
     for op, av in tree:
         if str(op) == "SUBPATTERN":
             sub = av[3]
+            if global_ci or (av[1] & _re.IGNORECASE):
+                # case-insensitive matching: the group captures the text as written, e.g. 'RC' - not only the listed spellings
+                lits = regex_first_group_literals_cs(sub)
+                return None if lits is None else sorted({x for l in lits for x in (l, l.upper(), l.capitalize())})
             items = list(sub)
             if len(items) == 1 and str(items[0][0]) == "BRANCH":
                 alts = []
